@@ -15,6 +15,9 @@ func main() {
 		os.Exit(2)
 	}
 	switch os.Args[1] {
+	case "gendiag":
+		diagExprOnly = len(os.Args) > 2
+		gendiag()
 	case "list":
 		ids := []string{}
 		for id := range props {
